@@ -29,8 +29,10 @@ REQUIRED_CLAUSES = ["inputs-unchanged", "repeat==first"]
 TIMEOUT = {"quick": 900, "thorough": 3400}
 
 KINDS = ["tensor:stR", "tensor:stR-ops", "tensor:stR-sec", "tensor:stR-TD", "tensor:stF", "tensor:stF-TD", "tensor:cRF", "tensor:cRF-TD", "tensor:Lf",
-         "getprop:stR", "getprop:stF", "getprop:cRF",
+         "tensor:neF", "tensor:neF-TD",
+         "getprop:stR", "getprop:stF", "getprop:cRF", "getprop:neF-TD",
          "prop:A:0", "prop:A:1", "prop:A:2", "prop:B:0", "prop:B:1", "prop:A:0:6", "prop:B:2:2",
+         "prop:N:0", "prop:N:1", "prop:N:2", "prop:N2:0", "prop:N2:1", "prop:T:0", "prop:T:1", "prop:T2:1",
          "eU:calc", "eU:next", "sv:0", "sv:1", "pop", "heom:0", "heom:1", "heom:free", "abs"]
 
 
@@ -91,6 +93,14 @@ def run_case(case, ctx):
             propA = qm.ReducedDensityMatrixPropagator(tshort, hamA, RA)
             RB, hamB = agg.get_RelaxationTensor(t, relaxation_theory="stR", as_operators=True)
             propB = qm.ReducedDensityMatrixPropagator(tshort, hamB, RB)
+            # time-dependent theories: one tensor object shared by two propagators (non-equilibrium Foerster carries an
+            # inhomogeneous term computed from the initial state on every run; TD Redfield is propagated on the bath's axis)
+            RN, hamN = agg.get_RelaxationTensor(t, relaxation_theory="neF", time_dependent=True)
+            propN = qm.ReducedDensityMatrixPropagator(t, hamN, RN)
+            propN2 = qm.ReducedDensityMatrixPropagator(t, hamN, RN)
+            RT, hamT = agg.get_RelaxationTensor(t, relaxation_theory="stR", time_dependent=True)
+            propT = qm.ReducedDensityMatrixPropagator(t, hamT, RT)
+            propT2 = qm.ReducedDensityMatrixPropagator(t, hamT, RT)
             eU = qr.EvolutionSuperOperator(time=qr.TimeAxis(0.0, 6, 4.0), ham=hamA, relt=RA)
             eU.set_dense_dt(2)
             eJ = qr.EvolutionSuperOperator(time=qr.TimeAxis(0.0, 6, 4.0), ham=hamA, relt=RA, mode="jit")
@@ -108,7 +118,7 @@ def run_case(case, ctx):
             lops = [qm.Operator(data=numpy.eye(dim)[:, [1]] @ numpy.eye(dim)[[2 % dim if dim > 2 else 1], :])]
             lsbi = qm.SystemBathInteraction(sys_operators=lops, rates=[1.0 / 150.0])
 
-    shared = {"ham": ham, "sbi": sbi, "t": t, "hamA": hamA, "RA": RA, "hamB": hamB, "RB": RB, "tshort": tshort,
+    shared = {"ham": ham, "sbi": sbi, "t": t, "hamA": hamA, "RA": RA, "hamB": hamB, "RB": RB, "tshort": tshort, "hamN": hamN, "RN.data": RN.data, "hamT": hamT, "RT": RT,
               "rho0": states[0], "rho1": states[1], "rho2": states[2], "psi0": psis[0], "psi1": psis[1],
               "hamh": hamh, "sbih": sbih, "hierarchy": hy, "th": th, "Kpop": Kpop, "lsbi": lsbi}
 
@@ -142,7 +152,8 @@ def run_case(case, ctx):
         with contextlib.redirect_stdout(out):
             if p[0] == "tensor" or p[0] == "getprop":
                 lab = p[1]
-                th_ = {"stR": "stR", "stR-ops": "stR", "stR-sec": "stR", "stR-TD": "stR", "stF": "stF", "stF-TD": "stF", "cRF": "cRF", "cRF-TD": "cRF", "Lf": "Lindblad_form"}[lab]
+                th_ = {"stR": "stR", "stR-ops": "stR", "stR-sec": "stR", "stR-TD": "stR", "stF": "stF", "stF-TD": "stF", "cRF": "cRF", "cRF-TD": "cRF", "Lf": "Lindblad_form",
+                       "neF": "neF", "neF-TD": "neF"}[lab]
                 kw = {}
                 if "ops" in lab:
                     kw["as_operators"] = True
@@ -163,13 +174,14 @@ def run_case(case, ctx):
                 if p[0] == "tensor":
                     R, h = agg.get_RelaxationTensor(t, relaxation_theory=th_, **kw)
                     return kind, numpy.concatenate([tensor_result(R), arr(h.data).ravel().astype(complex)])
-                pr = agg.get_ReducedDensityMatrixPropagator(tshort, relaxation_theory=th_, **kw)
+                pr = agg.get_ReducedDensityMatrixPropagator(t if "TD" in lab else tshort, relaxation_theory=th_, **kw)
                 ev = pr.propagate(states[0])
                 return kind, arr(ev.data).ravel()
             if p[0] == "prop":
-                pr = propA if p[1] == "A" else propB
+                pr = {"A": propA, "B": propB, "N": propN, "N2": propN2, "T": propT, "T2": propT2}[p[1]]
                 order = int(p[3]) if len(p) > 3 else 4
-                sig = kind + "|Nref=%d" % pr.Nref
+                # two propagators sharing one tensor must give the same result for the same state
+                sig = "prop:" + p[1].rstrip("2") + ":" + ":".join(p[2:]) + "|Nref=%d" % pr.Nref
                 ev = pr.propagate(states[int(p[2])], method="short-exp-%d" % order)
                 return sig, arr(ev.data).ravel()
             if kind == "eU:calc":
